@@ -29,3 +29,22 @@ package main
 //@   requires m != nil
 //@   modifies star(m.handlerChan), blocked
 //@   ensures [C19:finish_is_reported] sentcount(m.handlerChan) == old(sentcount(m.handlerChan)) + 1 && sentsum(m.handlerChan) == old(sentsum(m.handlerChan)) - 1
+
+// The two relay directions of copyLoop, each as a sequential contract: the direction copies with
+// io.Copy (which forwards every byte it reads before it looks at the error), closes BOTH connections
+// when its copy ends, and reports exactly one result.
+//@ func copyLoop$1() ()
+//@   serves C19
+//@   requires a != nil && b != nil && payload(a) != nil && payload(b) != nil && errChan != nil && outside(a, &wg) && outside(b, &wg) && outside(&a, a) && outside(&a, b) && outside(&b, a) && outside(&b, b) && outside(&a, &wg) && outside(&b, &wg) && outside(&errChan, a) && outside(&errChan, b) && outside(&errChan, &wg)
+//@   modifies a.*, b.*, wg.*, star(errChan), blocked
+//@   assert_at io.Copy#1 [C19:upstream_is_copied_by_io_copy] arg0 == b && arg1 == a
+//@   ensures [C19:both_sides_torn_down_together] a.closed && b.closed
+//@   ensures [C19:one_result_reported] sentcount(errChan) == old(sentcount(errChan)) + 1
+
+//@ func copyLoop$2() ()
+//@   serves C19
+//@   requires a != nil && b != nil && payload(a) != nil && payload(b) != nil && errChan != nil && outside(a, &wg) && outside(b, &wg) && outside(&a, a) && outside(&a, b) && outside(&b, a) && outside(&b, b) && outside(&a, &wg) && outside(&b, &wg) && outside(&errChan, a) && outside(&errChan, b) && outside(&errChan, &wg)
+//@   modifies a.*, b.*, wg.*, star(errChan), blocked
+//@   assert_at io.Copy#1 [C19:downstream_is_copied_by_io_copy] arg0 == a && arg1 == b
+//@   ensures [C19:both_sides_torn_down_together] a.closed && b.closed
+//@   ensures [C19:one_result_reported] sentcount(errChan) == old(sentcount(errChan)) + 1
